@@ -211,12 +211,13 @@ class AttrRecord:
         self.__dict__.update(d)
 
 
-def datum(x, g):
+def datum(x, g, rec=None):
     """abstract datum record -> record for row-wise fill (dict, attribute record or bare scalar)"""
     d = _datum(x, g)
-    if RECMODE[0] == "attr":
+    rec = rec or RECMODE[0]
+    if rec == "attr":
         return AttrRecord(d)
-    if RECMODE[0] == "scalar":
+    if rec == "scalar":
         return d["x"]
     return d
 
